@@ -164,7 +164,7 @@ PROPS["C19"] = {
 
 PROPS["C09"] = {
     "level": "other",
-    "technique": "Verus contracts on the extracted Compactor::garbage_collect (every path handed to the object store's delete was pending, past its grace period and unpinned when checked; the four closures are lifted and verified), Compactor::enforce_retention (only chunks whose newest row is older than the cut-off leave the catalog), BoundedClock::retention_cutoff_nanos and ChunkPinRegistry::is_pinned",
+    "technique": "Verus contracts on the extracted persist_pending_deletions / load_pending_deletions (what is persisted at the end of a cycle is the complete pending list; after a restart exactly the persisted and the already pending paths are pending, each path once); Verus contracts on the extracted Compactor::garbage_collect (every path handed to the object store's delete was pending, past its grace period and unpinned when checked; the four closures are lifted and verified), Compactor::enforce_retention (only chunks whose newest row is older than the cut-off leave the catalog), BoundedClock::retention_cutoff_nanos and ChunkPinRegistry::is_pinned",
     "verus": ["c09_gc.rs.in", "c03_compactor.rs.in"],
     "explanation": "Sequential per-pass obligations proved for all pending lists, pin sets, clocks and configurations in the stated ranges. A pin taken between GC's check and its delete (schedule) and the persistence of pending deletions across restarts (load / persist merge) are not covered; the catalog's max_timestamp is taken to be the chunk's true newest row (C06/C07 contracts).",
     "assumptions": [
